@@ -6,7 +6,7 @@ import vf
 vf.use_repo()
 from ak.ghist import ReposCollection, RBuild  # noqa: E402
 from vf import mockgit as mg  # noqa: E402
-from vf.core import sig_of  # noqa: E402
+from vf.core import sig_of, CaseTimeout, Inconclusive  # noqa: E402
 
 ID = "C06"
 LEVEL = "exploration"
@@ -25,8 +25,8 @@ RULE = ("random commit DAGs (3-25 commits, 7% extra roots, 25% merges, parents a
 ASSUMPTIONS = ["with parallel tagged sub-branches any minimal containing build is accepted",
                "all commit times lie within 29 days (inside the 30-day obsolete-branch window)"]
 TIERS = {
-    "quick": {"shards": 4, "cases": 1500, "timeout": 300},
-    "thorough": {"shards": 16, "cases": 5000, "timeout": 3000},
+    "quick": {"shards": 4, "cases": 1500, "timeout": 300, "params": {"case_timeout": 10}},
+    "thorough": {"shards": 16, "cases": 5000, "timeout": 3000, "params": {"case_timeout": 10}},
 }
 FLOORS = {"quick": {"distinct_nontrivial": 800, "commit_branch_decisions": 20000, "not_merged_listings": 1000,
                     "heads_inside_lower_branch": 150, "printed_reports_parsed": 1500},
@@ -264,43 +264,55 @@ def judge(ctx, repo, text, case, repos=None):
 
 def run_shard(ctx):
     logging.disable(logging.CRITICAL)
+    timed_out = 0
     for i in range(ctx.cases):
-        rng = ctx.rng(i)
-        repo = gen_history(rng, 25 if ctx.tier == "quick" else rng.choice([12, 25, 40]))
-        descr = mg.describe(repo)
-        texts = rng.sample(TEXTS, rng.randint(1, 3))
-        # half of the histories are reported by ONE long-lived collection asked for several texts
-        shared = ReposCollection({'r': mg.repo_for('r', repo)}) if rng.random() < 0.5 else None
-        late_tags = []
-        if shared is None and rng.random() < 0.12:
-            # the refs are read from a .git directory by the production code (packed refs, annotated tags)
-            import shutil
-            import tempfile
-            git_dir = tempfile.mkdtemp(prefix="vf-c06-git-")
-            try:
-                n_ann = mg.write_packed_refs(repo, git_dir, rng)
-                cls = type(mg.repo_for('r', repo))
-                disk = ReposCollection({'r': cls('r', mg.DiskRefsRepo(repo, git_dir), 'origin')})
-                ctx.count("histories_with_refs_read_from_packed_refs")
-                ctx.count("annotated_tags_in_packed_refs", n_ann)
-                judge(ctx, repo, texts[0], {"repo": descr, "text": texts[0], "refs": "packed-refs"}, disk)
-            finally:
-                shutil.rmtree(git_dir, ignore_errors=True)
-        for k, text in enumerate(texts):
-            if shared is not None and k and rng.random() < 0.5:
-                # between two reports of the long-lived collection new build tags arrive (as after a fetch)
-                fmt = "ci-%d-release_1_1-ok" if any(t.startswith("ci-") for t in repo.tags) else "build_%d_release_1_1_success"
-                name = fmt % (20000 + k)
-                repo.add_tag(name, rng.choice(sorted(repo.commits)))
-                late_tags.append(name)
-                descr = mg.describe(repo)
-                ctx.count("tags_added_between_reports_of_one_collection")
-            judge(ctx, repo, text, {"repo": descr, "text": text, "late_tags": list(late_tags),
-                                    "earlier_texts_on_same_collection":
-                                    texts[:k] if shared is not None else []}, shared)
-        if i < 2:
-            ctx.sample({"commits": [[c[0], c[1], c[2][:20]] for c in descr["commits"]],
-                        "branches": descr["branches"], "tags": descr["tags"]})
+        try:
+            rng = ctx.rng(i)
+            repo = gen_history(rng, 25 if ctx.tier == "quick" else rng.choice([12, 25, 40]))
+            descr = mg.describe(repo)
+            texts = rng.sample(TEXTS, rng.randint(1, 3))
+            # half of the histories are reported by ONE long-lived collection asked for several texts
+            shared = ReposCollection({'r': mg.repo_for('r', repo)}) if rng.random() < 0.5 else None
+            late_tags = []
+            if shared is None and rng.random() < 0.12:
+                # the refs are read from a .git directory by the production code (packed refs, annotated tags)
+                import shutil
+                import tempfile
+                git_dir = tempfile.mkdtemp(prefix="vf-c06-git-")
+                try:
+                    n_ann = mg.write_packed_refs(repo, git_dir, rng)
+                    cls = type(mg.repo_for('r', repo))
+                    disk = ReposCollection({'r': cls('r', mg.DiskRefsRepo(repo, git_dir), 'origin')})
+                    ctx.count("histories_with_refs_read_from_packed_refs")
+                    ctx.count("annotated_tags_in_packed_refs", n_ann)
+                    judge(ctx, repo, texts[0], {"repo": descr, "text": texts[0], "refs": "packed-refs"}, disk)
+                finally:
+                    shutil.rmtree(git_dir, ignore_errors=True)
+            for k, text in enumerate(texts):
+                if shared is not None and k and rng.random() < 0.5:
+                    # between two reports of the long-lived collection new build tags arrive (as after a fetch)
+                    fmt = "ci-%d-release_1_1-ok" if any(t.startswith("ci-") for t in repo.tags) else "build_%d_release_1_1_success"
+                    name = fmt % (20000 + k)
+                    repo.add_tag(name, rng.choice(sorted(repo.commits)))
+                    late_tags.append(name)
+                    descr = mg.describe(repo)
+                    ctx.count("tags_added_between_reports_of_one_collection")
+                judge(ctx, repo, text, {"repo": descr, "text": text, "late_tags": list(late_tags),
+                                        "earlier_texts_on_same_collection":
+                                        texts[:k] if shared is not None else []}, shared)
+            if i < 2:
+                ctx.sample({"commits": [[c[0], c[1], c[2][:20]] for c in descr["commits"]],
+                            "branches": descr["branches"], "tags": descr["tags"]})
+        except CaseTimeout:
+            # the report did not come back within the alarm (cases take milliseconds): never a verdict, but
+            # the remaining histories are still worth running - a few such cases are tolerated
+            timed_out += 1
+            ctx.count("cases_that_exceeded_the_wall_clock_alarm")
+            if timed_out > 3:
+                raise
+    if timed_out:
+        raise Inconclusive("%d histories exceeded the %.0f s alarm (the report did not return)"
+                           % (timed_out, ctx.case_timeout))
 
 
 def replay(ctx, case):
